@@ -49,6 +49,16 @@ pub fn bucket_ref_g<'a, T>(b: &Bucket<T>, t: Ghost<&'a RawTable<T>>) -> (r: &'a 
     ensures t@.valid_bucket(*b) ==> *r == t@.elem(*b),
 { unsafe { b.as_ref() } }
 
+/// Extraction rule R23: the closure literal `|(k, _)| g(k)` (it forwards the key of a stored pair to the caller's `FnMut` `g`)
+/// as a combinator. Verus rejects a closure that captures a mutable borrow, so the two raw-entry `search` functions could only
+/// be assumed; with the closure named, their bodies are verified. TRUSTED: the combinator's body IS that closure, and its
+/// specification is `g`'s on the key.
+#[verifier::external_body]
+pub fn key_adapter<K, V, F: FnMut(&K) -> bool>(f: F) -> (r: impl FnMut(&(K, V)) -> bool)
+    ensures forall|kv: &(K, V)| f.requires((&kv.0,)) ==> #[trigger] r.requires((kv,)),
+            forall|kv: &(K, V), o: bool| #[trigger] r.ensures((kv,), o) ==> f.ensures((&kv.0,), o),
+{ let mut f = f; move |kv: &(K, V)| f(&kv.0) }
+
 /// `Iterator::size_hint` of a caller-supplied iterator (extraction rule R17 routes the call through this identity
 /// wrapper because vstd's Iterator specification has no `size_hint`): the hint is advisory, so NOTHING is assumed
 /// about the result -- every value, including (usize::MAX, None) and a wrong one, is possible.
